@@ -62,6 +62,12 @@ pub fn gen_healthy_history(seed: u64, tier: Tier, check: &str) -> Scenario {
     for s in sc.steps.iter_mut() {
         if let Step::Backup { plan, opts } = s {
             if r.chance(1, 3) {
+                if r.chance(1, 5) {
+                    // right after the header is on disk, or one or two operations later
+                    plan.crash_after = Some(("write".into(), "*BANDHEAD".into()));
+                    plan.crash_after_ops = r.below(3) as u32;
+                    continue;
+                }
                 plan.crash_on = Some(match r.below(5) {
                     0 => ("write".into(), "*/i/".into()),
                     1 => ("write".into(), "*BANDTAIL".into()),
